@@ -1367,7 +1367,7 @@ def shortest_int(data: np.ndarray, percent: float=50) -> tuple[float, float]:
 
         data = np.sort(data)
         lag = int(len(data) * percent/100)
-        diff = diff_lag(data, lag)
+        diff = diff_lag(data.astype(float) if np.issubdtype(data.dtype, np.integer) else data, lag)  # integer widths may not fit the dtype of the data
         i = np.flatnonzero(diff == np.min(diff))  # every window of minimal width (ties are exact for quantised data)
         i = i[len(i) // 2]  # the middle one of the tied windows: always an index that attains the minimum
         return np.array((data[i], data[i + lag]))
